@@ -93,6 +93,8 @@ def check(item, tier):
         mdp = build.SpecMDP(spec, SLAB[li], ALAB[li])
         sl, al = mdp.sl, mdp.al
         rmin, rmax = float(spec.min_reward()), float(spec.max_reward())
+        sib_T = tuple(tuple((a, d, (tuple(x - 3 for x in rw) if isinstance(rw, tuple) else rw - 3)) for a, d, rw in row) for row in spec_item[2])
+        sibling = build.SpecMDP(Spec(spec_item[:2] + (sib_T, tuple(sorted(set(spec_item[3]) | {max(spec.n - 2, 0)}))) + spec_item[4:]), SLAB[li], ALAB[li])
         for lname in LEARNERS:
             for (si, ei, ti, qi, pi_) in cfgs:
                 alpha, eps, temp, episodes = STEP[si], EPS[ei], TEMP[ti], EPISODES[pi_]
@@ -124,10 +126,19 @@ def check(item, tier):
                     def results(self):
                         return self.ep_rewards
 
+                reuse = (si + ei + qi) % 2 == 1
+
                 def body(rng, seed=0):
-                    del log[:]
                     learner = getattr(td, lname)(episodes=episodes, step_size=alpha, rand_choose=eps, softmax_temp=temp,
                                                  initial_q=iq, seed=seed, event_listener_class=Listener)
+                    if reuse:
+                        # learner objects are reusable: one earlier training run on a sibling problem (default answers, not explored)
+                        with patched_random(Explorer(bound=0, max_points=600)):
+                            try:
+                                learner.train_on(sibling)
+                            except BaseException:
+                                pass
+                    del log[:]
                     return learner.train_on(mdp)
 
                 def init_row(ls):
